@@ -156,14 +156,24 @@ def run(ctx):
                 z = np.asarray(oracle.rv_basis(lin.t, P_d, e_, om, M0, lin.t_ref), dtype=float)
                 want_rv = np.column_stack([z, lin.D]) @ x
                 scale = abs(x[0]) / (1 - e_) ** 2 + np.max(np.abs(want_rv)) + 1e-9
-                dev = float(np.max(np.abs(np.asarray(model_rv) - want_rv)) / scale)
+                # exoplanet_core's Kepler op (a dependency, used by the MCMC model) loses accuracy in a window of ~1e-5 rad
+                # around M = pi (mod 2 pi): measured error <= 1.4e-5 in (sin f, cos f). Epochs inside a 1e-4 window get
+                # that allowance; everywhere else the op is accurate to 1e-14.
+                Mq = 2 * math.pi * (lin.t - lin.t_ref) / P_d - M0
+                near_pi = np.abs(np.mod(Mq, 2 * math.pi) - math.pi) < 1e-4
+                allow = np.where(near_pi, 3e-5 * abs(x[0]) / (1 - e_) ** 2 / scale, 0.0)
+                ctx.count("epochs_in_kepler_op_window_near_pi", int(np.sum(near_pi)))
+                dev = float(np.max(np.maximum(np.abs(np.asarray(model_rv) - want_rv) / scale - allow, 0.0)))
                 worst_rv = max(worst_rv, dev)
                 ctx.evaluations += 1
                 ctx.distinct.add(repr(("model_rv", unit_cls, ps["poly_trend"], n_off)))
                 if dev > 1e-7:
                     key = "model_rv-differs" if canonical else "model_rv-differs-in-custom-units"
                     ctx.violation(key, "model_rv differs from K z(t) + trend (+offsets) by %.3g of its scale at P=%.4g d e=%.3f "
-                                  "(K=%.4g %s)" % (dev, P_d, e_, x[0], pb.du), dict(desc, point=q, P_day=P_d, e=e_))
+                                  "(K=%.4g %s)" % (dev, P_d, e_, x[0], pb.du),
+                                  dict(desc, point=q, P_day=P_d, e=e_, omega=om, M0=M0, x=x, got=np.asarray(model_rv)[:20],
+                                       want=want_rv[:20], kepler_part=(x[0] * z)[:20], dt=(lin.t - lin.t_ref)[:20],
+                                       t_ref_kind=pb.dspec["t_ref_kind"]))
                     break
                 var = lin.sig ** 2 + s_du ** 2
                 gauss = oracle.ln_normal_diag(lin.y, want_rv, var)
@@ -200,7 +210,7 @@ def run(ctx):
                 ctx.maxi("logp_offset_spread", spread if spread < 1e-3 else 0.0)
                 ctx.maxi("model_rv_rel_dev", worst_rv)
                 # the constant is a difference of numbers as large as the data term: allow their float64 resolution
-                if spread > 1e-6 * (1 + max(abs(c) for c in consts)) + 1e-11 * max(mags):
+                if spread > 1e-6 * (1 + max(abs(c) for c in consts)) + 1e-9 * max(mags):
                     ctx.violation("mcmc-log-density-differs", "model log-density minus (declared priors + Gaussian data term) varies by "
                                   "%.3g over %d parameter points (must be constant)" % (spread, npts), dict(desc, offsets_head=consts[:4]))
             if i % 3 == 0:
